@@ -121,12 +121,12 @@ func (w *Worker) newAtom(name string, minLen, maxLen int, forbid string) value {
 	w.assertPC(tAnd(tCmp(">=", ln, mkInt64(int64(minLen))), tCmp("<=", ln, mkInt64(int64(maxLen)))))
 	// printable ASCII only, minus forbidden bytes
 	var cls []*term
-	cls = append(cls, mk("re.range", sBool, mkStrConst(" "), mkStrConst("~")))
+	cls = append(cls, mk("re.range", sRegLan, mkStrConst(" "), mkStrConst("~")))
 	allowed := cls[0]
 	for i := 0; i < len(forbid); i++ {
-		allowed = mk("re.diff", sBool, allowed, mk("str.to_re", sBool, mkStrConst(string(forbid[i]))))
+		allowed = mk("re.diff", sRegLan, allowed, mk("str.to_re", sRegLan, mkStrConst(string(forbid[i]))))
 	}
-	w.assertPC(mk("str.in_re", sBool, t, mk("re.*", sBool, allowed)))
+	w.assertPC(mk("str.in_re", sBool, t, mk("re.*", sRegLan, allowed)))
 	return &symStr{parts: []ropePart{{kind: rkAtom, t: t, forbid: forbid, maxLen: maxLen, minLen: minLen}}, w: w}
 }
 
